@@ -123,11 +123,11 @@ theorem if_else_unless_dual_up_to_line_source (P : Prims) (O : OutPrims) (cfg : 
     refine relM_bind (relM_refl (R := fun a b : Bool => a = b) (fun _ => rfl) _) (fun b b' hb => ?_)
     subst hb
     split
-    · exact rel_renderBlockBody _ (fun x => by constructor <;> intro h <;> omega) nA hniA
+    · exact lineRel_renderBlockBody _ (fun x => by constructor <;> intro h <;> omega) nA hniA
     · refine relM_bind (relM_refl (R := fun a b : Bool => a = b) (fun _ => rfl) _) (fun b b' hb => ?_)
       subst hb
       split
-      · exact rel_renderBlockBody _ (fun x => by constructor <;> intro h <;> omega) nB hniB
+      · exact lineRel_renderBlockBody _ (fun x => by constructor <;> intro h <;> omega) nB hniB
       · exact relM_refl StatusRel.refl _
   | err e => exact RunResult.sameUpToLine_refl _
   | panic w => exact RunResult.sameUpToLine_refl _
